@@ -6,6 +6,7 @@ CONSTANTS
   Kinds = {"close", "keep", "ws"}
   SigTwice = FALSE
   Dev = {"ReturnBeforeJoin"}
+  Faults = {}
 SPECIFICATION Spec
 INVARIANTS Inv_PortFree
 CHECK_DEADLOCK FALSE
